@@ -29,6 +29,17 @@ pub mod util {
     verus! {
     #[verifier::external_body]
     pub struct SymbolContext { _p: u8 }
+    /// opaque stand-in for the symbol table (its look-up is the subject of U-symbols)
+    #[verifier::external_body]
+    #[verifier::reject_recursive_types(T)]
+    pub struct SymbolManager<T> { _p: core::marker::PhantomData<T> }
+    impl<T> SymbolManager<T> {
+        /// the declaration a reference denotes in a label scope (proved to be the level rule in U-symbols; uninterpreted here)
+        pub uninterp spec fn spec_find<S>(&self, ctx: &SymbolContext, level: usize, hierarchy: Seq<S>) -> Option<ItemRef<T>>;
+    }
+    /// `STRING == "lit"` compares the texts (R16; ASSUMED)
+    #[verifier::external_body]
+    pub fn verif_string_is(a: &String, b: &str) -> (r: bool) ensures r == (a@ == b@) { unimplemented!() }
     //@@ITEMS util
     }
 }
@@ -40,10 +51,10 @@ pub mod asm {
     broadcast use {vstd::std_specs::hash::group_hash_axioms, crate::axioms::axiom_string_key_model};
     #[verifier::external_body]
     pub struct AstTopLevel { _p: u8 }
-    #[verifier::external_body]
-    pub struct ItemDecls { _p: u8 }
-    /// stand-in for asm::ItemDefs: only the field the function reads directly
-    pub struct ItemDefs { pub ruledefs: DefList<Ruledef> }
+    /// stand-ins for asm::ItemDecls / asm::ItemDefs / asm::Symbol: only the fields the verified functions read
+    pub struct ItemDecls { pub symbols: util::SymbolManager<Symbol> }
+    pub struct ItemDefs { pub ruledefs: DefList<Ruledef>, pub symbols: DefList<Symbol> }
+    pub struct Symbol { pub value_statically_known: bool }
     #[verifier::external_body]
     pub struct InstructionMatchResolution { _p: u8 }
     //@@INCLUDE u_matchknown/spec.rs
